@@ -8,9 +8,24 @@ import (
 	"golang.org/x/tools/go/ssa"
 )
 
-func constBoolList(arg ssa.Value) (string, bool) {
+func constBoolList(p *Prog, arg ssa.Value) (string, bool) {
 	el := variadicElems(arg)
 	if el == nil {
+		// a package-level pattern that is never written: its initialiser
+		n := NewNormer(p)
+		if tv, ok := n.tableVal(arg, 0); ok && tv.Kind == VList && len(tv.List) > 0 {
+			out := make([]byte, len(tv.List))
+			for i, e := range tv.List {
+				if e.Kind != VBool {
+					return "", false
+				}
+				out[i] = '0'
+				if e.B {
+					out[i] = '1'
+				}
+			}
+			return string(out), true
+		}
 		return "", false
 	}
 	out := make([]byte, len(el))
@@ -85,7 +100,7 @@ func ruleEANAssembly(c *Ctx) {
 			if len(site.Path) > 0 {
 				top = site.Path[0]
 			}
-			if bits, ok := constBoolList(call.Common().Args[1]); ok {
+			if bits, ok := constBoolList(c.P, call.Common().Args[1]); ok {
 				switch {
 				case bits == "101" && !hdr.Dominates(top.Block()):
 					first = top
@@ -121,16 +136,18 @@ func ruleEANAssembly(c *Ctx) {
 		if centre != nil {
 			c.Check(R, v.name+"/centre-before-digit", data.Pos(), !dominatesInstr(data, centre), "centre guard precedes the digit at that position", "ok")
 		}
-		dphi, ok := data.(*ssa.Call).Common().Args[1].(*ssa.Phi)
-		if !ok {
+		// the appended pattern, by cases (selected in place or by a helper of the digit's entry)
+		projectOK(n, fn, body, data.Block())
+		dv := data.(*ssa.Call).Common().Args[1]
+		cases := n.valueCases(fn, body, dv, 0)
+		at := cAnd(n.ReachCond(fn, body, data.Block()), cTrue)
+		if len(cases) < 2 {
 			c.Undecided(R, v.name+"/set-selection", data.Pos(), "pattern is not selected per position")
 			continue
 		}
-		// edge values are loads of num.<Field>
-		for ei, e := range dphi.Edges {
-			pred := dphi.Block().Preds[ei]
-			cond := cAnd(projectOK(n, fn, body, pred), n.EdgeCond(pred, dphi.Block()))
-			f := n.Norm(e).String()
+		for ei, cs := range cases {
+			cond := cAnd(at, cs.cond)
+			f := cs.val.String()
 			var want string
 			switch {
 			case v.mid == 4 && f == "num.LeftOdd":
@@ -144,12 +161,12 @@ func ruleEANAssembly(c *Ctx) {
 			case v.mid == 7 && f == "num.Right":
 				want = "ok && pos != 0 && pos >= 7"
 			default:
-				c.Check(R, fmt.Sprintf("%s/set-selection/edge%d", v.name, ei), dphi.Pos(), false, "LeftOdd / LeftEven / Right of the looked-up digit", f)
+				c.Check(R, fmt.Sprintf("%s/set-selection/edge%d", v.name, ei), data.Pos(), false, "LeftOdd / LeftEven / Right of the looked-up digit", f)
 				continue
 			}
 			w := MustRefCond(want)
 			renameAtoms(w, map[string]string{"par": "parity[-1 + pos]"})
-			c.expectCondC(R, v.name+"/set-selection/"+f, dphi.Pos(), cond, w)
+			c.expectCondC(R, v.name+"/set-selection/"+f, data.Pos(), cond, w)
 		}
 		if v.mid == 7 {
 			// parity row
@@ -281,6 +298,32 @@ func ruleCodabarValidation(c *Ctx) {
 			repl, replSite = call, s
 		}
 	})
+	hoisted := false
+	if compile == nil && repl != nil {
+		// the pattern compiled once into a package-level variable that is never assigned again
+		if ld, ok := repl.Common().Args[0].(*ssa.UnOp); ok {
+			if g, ok := ld.X.(*ssa.Global); ok && c.P.immutableGlobal(g) && g.Pkg != nil {
+				if initFn := g.Pkg.Func("init"); initFn != nil {
+					eachInstr(initFn, func(b *ssa.BasicBlock, ins ssa.Instruction) {
+						st, ok := ins.(*ssa.Store)
+						if !ok || st.Addr != ssa.Value(g) {
+							return
+						}
+						v := st.Val
+						if ex, ok := v.(*ssa.Extract); ok && ex.Index == 0 {
+							v = ex.Tuple
+						}
+						if call, ok := v.(*ssa.Call); ok {
+							switch calleeFull(call) {
+							case "regexp.Compile", "regexp.MustCompile":
+								compile, hoisted = call, true
+							}
+						}
+					})
+				}
+			}
+		}
+	}
 	if compile == nil {
 		c.Check(R, "codabar.EncodeWithColor/pattern", fn.Pos(), false, "a compiled validation pattern", "none")
 		return
@@ -302,7 +345,7 @@ func ruleCodabarValidation(c *Ctx) {
 		return
 	}
 	a := repl.Common().Args
-	recvOK := false
+	recvOK := hoisted
 	if ex, ok := a[0].(*ssa.Extract); ok && ex.Tuple == ssa.Value(compile) && ex.Index == 0 {
 		recvOK = true
 	} else if a[0] == ssa.Value(compile) {
